@@ -59,6 +59,16 @@ def run(ctx):
                 cases.append(Case(keygen_line(H, ps, seed, buf), "keygen/auxlen"))
                 cases.append(Case(sign_line(H, skb, b"m", "accept", buf), "sign/auxlen"))
         cases.append(Case(keygen_line(H, ps, seed, bytes(1500)), "keygen/auxfill", {"fill": (H, ps, seed, skb)}))
+    # parameter sets whose signature length straddles the 65535-byte limit of the signature object (8 levels, W1/W2, n = 32):
+    # accepted ones must be fully usable, refused ones must be refused by keygen, sign and lifetime alike
+    for H in ("S32", "K32"):
+        seed = rng.bytes_(32)
+        near = [[(1, 5)] * 7 + [(2, 5)], [(2, 5)] + [(1, 5)] * 7, [(1, 1)] * 7 + [(2, 1)], [(1, 1)] * 8, [(1, 5)] * 8, [(1, 5)] * 6 + [(2, 5)] * 2,
+                [(1, 1)] * 7, [(1, 5)] * 7, [(1, 1)] * 6 + [(2, 5), (1, 5)], [(1, 5)] * 7 + [(3, 1)], [(1, 5)] * 7 + [(2, 1)]]
+        for ps in near:
+            cases.append(Case(keygen_line(H, ps, seed), "keygen/siglen-limit"))
+            cases.append(Case(sign_line(H, sk_blob(H, ps, seed, 5), b"m", "accept"), "sign/siglen-limit"))
+            cases.append(Case(lifetime_line(H, sk_blob(H, ps, seed, 5)), "lifetime/siglen-limit"))
     filled = []
     for c, a, b in ctx.both(cases, proj_err_trace):
         oracle(ctx, c, a)
